@@ -72,9 +72,25 @@ def strip_comments(src):
     return src
 
 
-def lean_forbidden_scan():
+def import_closure(pid):
+    """files under lean/QecVerif reachable from Props/<pid>.lean through `import QecVerif.…` (plus the driver)"""
+    seen, todo = set(), ['QecVerif.Props.' + pid, 'Driver']
+    while todo:
+        m = todo.pop()
+        if m in seen:
+            continue
+        path = os.path.join(LEAN, *m.split('.')) + '.lean'
+        if not os.path.exists(path):
+            continue
+        seen.add(m)
+        for imp in re.findall(r'^import\s+(QecVerif\.\S+)', open(path).read(), flags=re.M):
+            todo.append(imp)
+    return sorted(os.path.join(LEAN, *m.split('.')) + '.lean' for m in seen)
+
+
+def lean_forbidden_scan(pid=None):
     hits = []
-    for f in lean_sources():
+    for f in (import_closure(pid) if pid else lean_sources()):
         s = strip_comments(open(f).read())
         for m in FORBIDDEN.finditer(s):
             hits.append('{}: {}'.format(os.path.relpath(f, LEAN), m.group(0).strip()))
@@ -235,9 +251,9 @@ class Ctx:
         return q if self.tier == 'quick' else t
 
     # -- case queue
-    def case(self, line, impl, nontrivial=True, meta=None, sample=False):
+    def case(self, line, impl, nontrivial=True, meta=None, sample=False, post=None):
         """queue one correspondence case: the model's reply to `line` must equal `impl` (a str)"""
-        self.queue.append((line, impl, meta))
+        self.queue.append((line, impl, meta, post))
         self.evaluations += 1
         if nontrivial:
             self.distinct.add(hashlib.blake2b(line.encode(), digest_size=8).digest())
@@ -255,7 +271,12 @@ class Ctx:
             return
         q, self.queue = self.queue, []
         outs = self.driver.ask([c[0] for c in q])
-        for (line, impl, meta), model in zip(q, outs):
+        for (line, impl, meta, post), model in zip(q, outs):
+            if post is not None:
+                try:
+                    model = post(model)
+                except Exception as ex:
+                    model = 'post-error:{!r} on {}'.format(ex, model)[:500]
             if model != impl:
                 if len(self.mismatches) < 200:
                     self.mismatches.append({'op': line, 'impl': impl, 'model': model, 'meta': meta})
@@ -268,12 +289,12 @@ class Ctx:
 
     # -- lean
     def lean_check(self, with_leanchecker=False):
-        rc, out, dt = lake_build()
+        rc, out, dt = lake_build(('QecVerif.Props.' + self.pid, 'qvdriver'))
         self.extra['lake_build_s'] = round(dt, 1)
         if rc != 0:
             self.proof['problems'].append('lake build failed:\n' + out[-3000:])
             return False
-        hits = lean_forbidden_scan()
+        hits = lean_forbidden_scan(self.pid)
         if hits:
             self.proof['problems'].append('forbidden constructs: ' + '; '.join(hits[:10]))
         path, names = prop_theorems(self.pid)
@@ -389,7 +410,7 @@ class Ctx:
             'traces_validated_against_impl': self.evaluations - len(self.mismatches),
             'obligations': self.proof['obligations'],
             'discharged': self.proof['discharged'],
-            'checker_cmd': 'cd lean/QecVerif && lake build QecVerif qvdriver && lake env lean <#print axioms for every '
+            'checker_cmd': 'cd lean/QecVerif && lake build QecVerif.Props.' + self.pid + ' qvdriver && lake env lean <#print axioms for every '
                            'theorem of QecVerif/Props/{}.lean>'.format(self.pid) +
                            (' && lake env leanchecker QecVerif.Props.' + self.pid if 'leanchecker_rc' in self.extra
                             else ''),
